@@ -19,6 +19,7 @@ from .core import (Unsupported, SymInt, SymIntStr, Rat, sym_int, sym_str, sym_fl
 from .abuf import ABuf, sha1, sha256, HEX
 from . import abuf as _abuf
 from .strs import SymStr
+from .ostr import OStr
 
 REPO = _os.environ.get("VERIF_REPO", "/repo")
 PKG = _os.path.join(REPO, "torrentfile")
@@ -175,17 +176,20 @@ def ben_equal(a, b, ordered=True):
     if isinstance(a, (dict, list, tuple)) or isinstance(b, (dict, list, tuple)):
         return False
     if isinstance(a, ABuf) or isinstance(b, ABuf):
-        if isinstance(a, str) or isinstance(b, str):
+        if isinstance(a, (str, OStr)) or isinstance(b, (str, OStr)):
             return False
         return a == b
+    if isinstance(a, (str, OStr)) != isinstance(b, (str, OStr)):
+        return False
     r = a == b
     return tb(r) if isinstance(r, core.SymBool) else bool(r)
 
 
 def _key_eq(a, b):
-    if isinstance(a, str) and isinstance(b, str):
-        return a == b
-    if isinstance(a, str) or isinstance(b, str):
+    sa, sb = isinstance(a, (str, OStr)), isinstance(b, (str, OStr))
+    if sa and sb:
+        return bool(a == b)
+    if sa or sb:
         return False
     return a == b
 
@@ -205,7 +209,7 @@ def ben_copy(x):
 
 def ben_check(x, path="$"):
     """Encoder's type dispatch: what pyben.dump accepts."""
-    if isinstance(x, str):
+    if isinstance(x, (str, OStr, SymStr)):
         return
     if isinstance(x, bool):
         return      # pyben encodes bools through the int branch ("iTruee"); judged by C06
@@ -485,7 +489,7 @@ class World:
         b.update(
             len=sym_len, range=sym_range,
             int=shim(int, sym_int, (SymInt,)),
-            str=shim(str, sym_str, (SymStr,)),
+            str=shim(str, sym_str, (SymStr, OStr)),
             float=shim(float, sym_float),
             bytes=ABuf, bytearray=ABuf, __abuf__=ABuf,
             open=self.fs.open,
